@@ -583,7 +583,7 @@ func (g *Eng) snapStep(op string) string {
 		return g.waitSnap(target)
 	}
 	if g.snap == nil {
-		return "err:no-snapshot"
+		return "ok" // nothing in flight: the step is a no-op (as in the model)
 	}
 	return g.waitSnap(target)
 }
